@@ -137,7 +137,14 @@ CalcSizeConf(cfg, res) ==
     /\ (P("C07") \/ P("C20") \/ P("C14") \/ P("C19")) =>
           ((IsOk(res) /\ Accepts(cfg)) => res.n = Size(cfg))
 
+\* FIR entries are written in the iteration order of a hash map, which differs between builder
+\* INSTANCES: byte-for-byte comparison of two writes is only meaningful for the same instance
+RECURSIVE HasFir(_)
+HasFir(c) == IF c.kind = "compound" THEN \E i \in 1..Len(c.members) : HasFir(c.members[i])
+             ELSE c.kind \in {"tfb", "pfb"} /\ c.fci.f = "fir"
+
 \* write_into(buffer of length L prefilled with pattern fill) -> res, buffer afterwards = out
+\* prev = an earlier write on the same configuration (prev.same: by the same builder instance)
 WriteConf(cfg, a, prev, L, fill, res, out) ==
     /\ P("C06") =>
           /\ ~IsPanic(res)
@@ -150,7 +157,7 @@ WriteConf(cfg, a, prev, L, fill, res, out) ==
           /\ IsOk(res) => /\ res.n <= L
                           /\ \A i \in (res.n + 1)..L : out[i] = Prefill(fill, i)
           /\ IsErr(res) => \A i \in 1..L : out[i] = Prefill(fill, i)
-          /\ (~IsNone(prev) /\ IsOk(res) /\ IsOk(prev.res) /\ prev.fill # fill) =>
+          /\ (~IsNone(prev) /\ IsOk(res) /\ IsOk(prev.res) /\ prev.fill # fill /\ (prev.same \/ ~HasFir(cfg))) =>
                 /\ prev.res.n = res.n
                 /\ res.n <= Min2(L, prev.L) => SubSeq(out, 1, res.n) = SubSeq(prev.out, 1, res.n)
     /\ (P("C07") \/ P("C20") \/ P("C14") \/ P("C19")) =>
